@@ -15,8 +15,8 @@ namespace Metapype
 
 /-- XML node tree as the XSLT data model sees it (comments and processing instructions are copied verbatim, they are
     represented as `other`) -/
-inductive XN where
-  | elem (name : String) (attrs : List (String × List Char)) (kids : List XN)
+inductive XD where
+  | elem (name : String) (attrs : List (String × List Char)) (kids : List XD)
   | text (s : List Char)
   | other (s : String)
   deriving Repr, Inhabited
@@ -36,11 +36,11 @@ def normSpace (s : List Char) : List Char := joinSp (xW [] s)
 
 mutual
 /-- the transformation; `ip`: some ancestor is a protected element -/
-def normX (prot : List String) (ip : Bool) : XN → XN
+def normX (prot : List String) (ip : Bool) : XD → XD
   | .elem n a ks => .elem n (a.map (fun kv => (kv.1, normSpace kv.2))) (normXL prot (ip || prot.contains n) ks)
   | .text s => .text (if ip then s else normSpace s)
   | .other s => .other s
-def normXL (prot : List String) (ip : Bool) : List XN → List XN
+def normXL (prot : List String) (ip : Bool) : List XD → List XD
   | [] => []
   | .text s :: ks =>
       if ip then .text s :: normXL prot ip ks
@@ -51,17 +51,17 @@ end
 
 mutual
 /-- `content.replace('\xa0', ' ')` on the document text: every text node and attribute value -/
-def replX : XN → XN
+def replX : XD → XD
   | .elem n a ks => .elem n (a.map (fun kv => (kv.1, replNbsp kv.2))) (replXL ks)
   | .text s => .text (replNbsp s)
   | .other s => .other s
-def replXL : List XN → List XN
+def replXL : List XD → List XD
   | [] => []
   | k :: ks => replX k :: replXL ks
 end
 
 /-- the whole function on a document -/
-def xmlNormalize (prot : List String) (doc : XN) : XN := normX prot false (replX doc)
+def xmlNormalize (prot : List String) (doc : XD) : XD := normX prot false (replX doc)
 
 mutual
 /-- elements, attribute names and their order (text and values forgotten) -/
@@ -70,10 +70,10 @@ inductive Sk where
 end
 
 mutual
-def skel : XN → Option Sk
+def skel : XD → Option Sk
   | .elem n a ks => some (.mk n (a.map (·.1)) (skelL ks))
   | _ => none
-def skelL : List XN → List Sk
+def skelL : List XD → List Sk
   | [] => []
   | .elem n a ks :: rest => .mk n (a.map (·.1)) (skelL ks) :: skelL rest
   | _ :: rest => skelL rest
